@@ -189,7 +189,128 @@ def _is_call_f(node):
     return isinstance(node, ast.Call) and isinstance(node.func, ast.Name) and node.func.id == 'f'
 
 
+BUS_PY = 'static_frame/core/bus.py'
+
+
+def _walk_no_nested(node):
+    """ast.walk without descending into nested function definitions."""
+    todo = list(ast.iter_child_nodes(node))
+    while todo:
+        n = todo.pop()
+        yield n
+        if not isinstance(n, (ast.FunctionDef, ast.Lambda)):
+            todo.extend(ast.iter_child_nodes(n))
+
+
+def bus_flags(repo):
+    """Which of the two known shapes each history-sensitive statement of bus.py has now (fail closed on a third shape).
+    The implementation model M branches on these constants, so it follows the code through the repairs proposed for the
+    C17 findings without being rewritten."""
+    _, classes = _classes(os.path.join(repo, BUS_PY))
+    bus = classes.get('Bus')
+    if bus is None:
+        raise GenError('class Bus not found')
+    for name in ('_store_reader', '_update_series_cache_iloc', 'get', '_axis_element', '_axis_element_items', 'sort_values'):
+        if name not in bus:
+            raise GenError(f'Bus.{name} not found')
+    flags = {}
+
+    # (a) _store_reader, max_persist == 1 branch: store.read(label, config=config[label]) or config[labels]
+    keys = []
+    for n in _walk_no_nested(bus['_store_reader']):
+        if isinstance(n, ast.Call) and _is_attr_chain(n.func, ('store', 'read')):
+            for kw in n.keywords:
+                if kw.arg == 'config':
+                    v = kw.value
+                    if (isinstance(v, ast.Subscript) and isinstance(v.value, ast.Name) and v.value.id == 'config'
+                            and isinstance(v.slice, ast.Name)):
+                        keys.append(v.slice.id)
+                    else:
+                        raise GenError('_store_reader: unexpected config argument of store.read')
+    if keys == ['label']:
+        flags['reader_cfg_by_label'] = True
+    elif keys == ['labels']:
+        flags['reader_cfg_by_label'] = False
+    else:
+        raise GenError(f'_store_reader: unexpected store.read calls {keys}')
+
+    # (b) _update_series_cache_iloc: inside `for label, frame in targets_items:` is the LRU position updated before or
+    #     after `frame = next(store_reader)`?
+    loops = [n for n in _walk_no_nested(bus['_update_series_cache_iloc'])
+             if isinstance(n, ast.For) and isinstance(n.iter, ast.Name) and n.iter.id == 'targets_items']
+    if len(loops) != 1:
+        raise GenError('_update_series_cache_iloc: loop over targets_items not found')
+    lru_at = read_at = None
+    for i, st in enumerate(loops[0].body):
+        if not isinstance(st, ast.If):
+            continue
+        for sub in st.body:
+            if (isinstance(sub, ast.Assign) and len(sub.targets) == 1 and isinstance(sub.targets[0], ast.Subscript)
+                    and _is_attr_chain(sub.targets[0].value, ('self', '_last_accessed')) and lru_at is None
+                    and isinstance(st.test, ast.Name) and st.test.id == 'max_persist_active'):
+                lru_at = i
+            if (isinstance(sub, ast.Assign) and isinstance(sub.value, ast.Call) and isinstance(sub.value.func, ast.Name)
+                    and sub.value.func.id == 'next' and read_at is None):
+                read_at = i
+    if lru_at is None or read_at is None or lru_at == read_at:
+        raise GenError('_update_series_cache_iloc: LRU update / next(store_reader) statements not found')
+    flags['lru_update_after_read'] = lru_at > read_at
+
+    # (c) get: return self._series.__getitem__(key) (no load) or self._extract_loc(key) / self.__getitem__(key) / self[key]
+    rets = [n for n in _walk_no_nested(bus['get']) if isinstance(n, ast.Return)]
+    if not rets:
+        raise GenError('Bus.get: no return')
+    last = rets[0] if len(rets) == 1 else max(rets, key=lambda n: n.lineno)
+    v = last.value
+    if isinstance(v, ast.Call) and _is_attr_chain(v.func, ('self', '_series', '__getitem__')):
+        flags['get_loads'] = False
+    elif (isinstance(v, ast.Call) and (_is_attr_chain(v.func, ('self', '_extract_loc')) or _is_attr_chain(v.func, ('self', '__getitem__')))) \
+            or (isinstance(v, ast.Subscript) and isinstance(v.value, ast.Name) and v.value.id == 'self'):
+        flags['get_loads'] = True
+    else:
+        raise GenError('Bus.get: unexpected return expression')
+
+    # (d) _axis_element / _axis_element_items: raw slots or loading accessors
+    def yield_from(fn):
+        ys = [n for n in _walk_no_nested(fn) if isinstance(n, ast.YieldFrom)]
+        if len(ys) != 1:
+            raise GenError(f'Bus.{fn.name}: expected one `yield from`')
+        return ys[0].value
+    v = yield_from(bus['_axis_element'])
+    if _is_attr_chain(v, ('self', '_series', 'values')):
+        flags['iter_element_loads'] = False
+    elif _is_attr_chain(v, ('self', 'values')):
+        flags['iter_element_loads'] = True
+    else:
+        raise GenError('Bus._axis_element: unexpected source')
+    v = yield_from(bus['_axis_element_items'])
+    if isinstance(v, ast.Call) and isinstance(v.func, ast.Name) and v.func.id == 'zip':
+        flags['iter_element_items_loads'] = False
+    elif isinstance(v, ast.Call) and _is_attr_chain(v.func, ('self', 'items')) and not v.args:
+        flags['iter_element_items_loads'] = True
+    else:
+        raise GenError('Bus._axis_element_items: unexpected source')
+
+    # (e) sort_values: the Series handed to _derive is the sorted Series of loaded Frames, or the Bus's own Series reindexed
+    assigns = [n for n in _walk_no_nested(bus['sort_values'])
+               if isinstance(n, ast.Assign) and len(n.targets) == 1 and isinstance(n.targets[0], ast.Name) and n.targets[0].id == 'series']
+    derives = [n for n in _walk_no_nested(bus['sort_values'])
+               if isinstance(n, ast.Return) and isinstance(n.value, ast.Call) and _is_attr_chain(n.value.func, ('self', '_derive'))
+               and len(n.value.args) == 1 and isinstance(n.value.args[0], ast.Name) and n.value.args[0].id == 'series']
+    if len(assigns) != 1 or len(derives) != 1 or not isinstance(assigns[0].value, ast.Call):
+        raise GenError('Bus.sort_values: unexpected shape')
+    f = assigns[0].value.func
+    if _is_attr_chain(f, ('cfs', 'sort_values')):
+        flags['sort_values_from_own_series'] = False
+    elif _is_attr_chain(f, ('self', '_series', 'reindex')):
+        flags['sort_values_from_own_series'] = True
+    else:
+        raise GenError('Bus.sort_values: unexpected source of the derived Series')
+    return flags
+
+
 def generate(repo):
+    flags = bus_flags(repo)
     funcs, classes = _classes(os.path.join(repo, STORE_PY))
     store = classes.get('Store')
     if store is None or '_mtime_coherent' not in store or '_mtime_update' not in store or '__init__' not in store:
@@ -218,9 +339,8 @@ def generate(repo):
     _, zc = _classes(os.path.join(repo, STORE_ZIP_PY))
     _, sc = _classes(os.path.join(repo, STORE_SQLITE_PY))
     entries = []
-    for cname, table, names in (('Store', classes, ('read',)),
-                                ('_StoreZip', zc, ('labels', 'read_many')),
-                                ('StoreZipPickle', zc, ('read_many',)),
+    # the entry points every Bus read goes through (Store.read and StoreZipPickle.read_many delegate to these)
+    for cname, table, names in (('_StoreZip', zc, ('labels', 'read_many')),
                                 ('StoreSQLite', sc, ('labels', 'read_many'))):
         for n in names:
             fn = table.get(cname, {}).get(n)
@@ -270,6 +390,20 @@ Definition write_entry_points : list (string * bool) :=
 
 Definition reads_checked : bool := nonwrite_decorator_checks && forallb snd read_entry_points.
 Definition writes_recorded : bool := write_decorator_records && forallb snd write_entry_points.
+
+(* from /repo/{BUS_PY}: which shape each history-sensitive statement has now *)
+(* Bus._store_reader, max_persist == 1 branch: config[label] (true) or config[labels], a generator key (false) *)
+Definition reader_cfg_by_label : bool := {b(flags['reader_cfg_by_label'])}.
+(* Bus._update_series_cache_iloc: the LRU position is updated after next(store_reader) (true) or before it (false) *)
+Definition lru_update_after_read : bool := {b(flags['lru_update_after_read'])}.
+(* Bus.get goes through _extract_loc (true) or reads self._series directly (false) *)
+Definition get_loads : bool := {b(flags['get_loads'])}.
+(* Bus._axis_element yields from self.values (true) or from self._series.values (false) *)
+Definition iter_element_loads : bool := {b(flags['iter_element_loads'])}.
+(* Bus._axis_element_items yields from self.items() (true) or from the raw Series (false) *)
+Definition iter_element_items_loads : bool := {b(flags['iter_element_items_loads'])}.
+(* Bus.sort_values derives from self._series reindexed in sorted order (true) or from the sorted Series of Frames (false) *)
+Definition sort_values_from_own_series : bool := {b(flags['sort_values_from_own_series'])}.
 '''
     return {'Gen/Gen_c17.v': text}
 
@@ -713,10 +847,17 @@ def run_history(env, mp, ops, kernel=False, online=None):
             ob = ('err', lit.err_class(e))
         flags = _flags(bus)
         if kernel:
-            private = [bool(x) for x in bus._loaded.tolist()]
+            # private state; a missing attribute is a lost kernel tie (sentinel -99), never a harness crash
+            try:
+                private = [bool(x) for x in bus._loaded.tolist()]
+            except AttributeError:
+                private = None
             if private != flags:
                 ob = ('err', f'status/_loaded disagree {flags} {private}')
-            la = [_rank(l) for l in bus._last_accessed] if mp is not None else []
+            if mp is None:
+                la = []
+            else:
+                la = [_rank(l) for l in getattr(bus, '_last_accessed', {UNKNOWN_LABEL: None, 'f-99': None})]
             trace.append((ob, flags, la, [list(b) for b in log]))
             del log[:]
         else:
@@ -729,7 +870,7 @@ def trace_coq(trace, kernel=False):
     for t in trace:
         base = f'({obs_coq(t[0])}, {lit.lst([lit.b(x) for x in t[1]])}'
         if kernel:
-            base += f', {lit.lst([str(x) for x in t[2]])}, {lit.lst([lit.lst([str(x) for x in b]) for b in t[3]])}'
+            base += f', {lit.lst([lit.z(x) for x in t[2]])}, {lit.lst([lit.lst([lit.z(x) for x in b]) for b in t[3]])}'
         out.append(base + ')')
     return lit.lst(out)
 
@@ -848,6 +989,18 @@ def exhaustive_cases(ctx, work):
 
 
 
+_FLAGS = None
+
+
+def source_flags():
+    """bus_flags of the tree under test (the same facts Gen/Gen_c17.v carries)."""
+    global _FLAGS
+    if _FLAGS is None:
+        from ..core import REPO
+        _FLAGS = bus_flags(REPO)
+    return _FLAGS
+
+
 # ---------------------------------------------------------------------------------- random histories
 def rand_key(rng, cur, bulk_ok=True):
     """A well-formed key over the current labels: (via, key)."""
@@ -953,7 +1106,9 @@ def random_cases(ctx, work, kernel):
             ops, trace = run_history(env, mp, None, kernel=kernel, online=RandomHistory(rng, env, mp, length, ctx.count))
             ctx.count(f'{kind}:{fmt}', f'{kind}:mp={"None" if mp is None else ("n+" if mp >= n else mp)}',
                       f'{kind}:config={"map" if env.mapped else "one"}')
-            in_dom = mp is None or not any(o[0] == 'sort_values' for o in ops)    # sort_values is proved for max_persist=None only
+            # the theorem's domain: sort_values only for max_persist=None; one StoreConfig for all labels or max_persist != 1
+            in_dom = ((mp is None or not any(o[0] == 'sort_values' for o in ops))
+                      and not (env.mapped and mp == 1 and not source_flags()['reader_cfg_by_label']))
             ctx.count(f'{kind}:in-theorem-domain={in_dom}')
             yield history_case(kind, env, mp, ops, trace, kernel=kernel, in_domain=in_dom,
                                tags={'stratum': 'kernel' if kernel else 'random', 'format': fmt, 'mp': mp})
